@@ -60,6 +60,7 @@ def http(port, method, path, body=b"", raw=None, timeout=20):
 
 class Check(PropertyCheck):
     id = "C20"
+    zoo = False
     lean_modules = ["Svgbob.Properties.C20"]
     assumptions = [
         "axum routing and body limit, connection handling, tokio scheduling and task isolation after a panic are "
